@@ -27,9 +27,9 @@ For each change i in 1,2 deliver in {out}/:
   - m{{i}}.meta.json : {{"property": "{pid}", "summary": "...what was changed...", "needs": "...what specific condition is required for the bug to manifest...", "demo_build": "...exact command line to build the demo against the library...", "ran": "...what you ran and observed, with and without the change..."}}
 
 How to build and test: 
-  cmake -G Ninja -S {wt} -B {wt}/_build -DCMAKE_BUILD_TYPE=RelWithDebInfo -DCMAKE_CXX_FLAGS=-Wno-error && cmake --build {wt}/_build -j8 && ctest --test-dir {wt}/_build -j8
-  A demo can be built with e.g.: g++ -std=c++14 -O1 -g -I{wt}/include demo.cpp {wt}/_build/libsimulator.a -lpthread -o demo
+  cmake -G Ninja -S {wt} -B {out}/build -DCMAKE_BUILD_TYPE=RelWithDebInfo -DCMAKE_CXX_FLAGS=-Wno-error && cmake --build {out}/build -j8 && ctest --test-dir {out}/build -j8
+  A demo can be built with e.g.: g++ -std=c++14 -O1 -g -I{wt}/include demo.cpp {out}/build/libsimulator.a -lpthread -o demo
   (Boost 1.83 headers are installed system-wide. There is no network access. Always run programs under `timeout 60`.)
 Look at {wt}/test/*.cpp and {wt}/README.rst for how the API is used (simulation, default_config or your own sim::configuration, io_context per node, sockets, timers, queues).
 
-Verify everything yourself: with the change applied the whole existing test suite passes and your demo fails; with the change reverted (git -C {wt} checkout -- .) your demo passes. Finish with the worktree reverted to a clean state (git -C {wt} status shows no modifications; the _build directory may stay). Your final message should list the two changes in one or two sentences each.""")
+Verify everything yourself: with the change applied the whole existing test suite passes and your demo fails; with the change reverted (git -C {wt} checkout -- .) your demo passes. Finish with the worktree reverted to a clean state (git -C {wt} status shows no modifications; the build directory may stay). Your final message should list the two changes in one or two sentences each.""")
